@@ -1018,6 +1018,14 @@ def run_case(case, out, env):
     if case['kind'] == 'abk':
         return run_abk(case, out, env)
     if case['kind'] == 'func':
+        if case['map'] == 'sym_to_psd':
+            # the N>5 branch calls ARPACK (eigsh), whose start / restart vectors come from np.random.default_rng(): an environment
+            # answer that the harness owns (fixed stream), so that a run is reproducible. (Observed once in ~10^6 unowned calls:
+            # ArpackNoConvergence on a 6x6 lattice matrix; with the stream owned such an event would replay deterministically.)
+            from mc import seams
+            with seams.EntropySeam(0):
+                run_func(case, out, env)
+            return
         run_func(case, out, env)
     else:
         run_module(case, out, env)
